@@ -28,7 +28,11 @@ theorem load_nil_implies_installed (U : Unsupported) (filter : Filter) (w w' : W
     rw [h] at this; exact absurd rfl this
   | prog p =>
     refine ⟨p, rfl, ?_⟩
-    obtain ⟨msg, hmsg, heq⟩ := gen_loadFilter_prog U filter p hpol w
+    by_cases hf : nnpFault filter w
+    · rw [gen_loadFilter_fault U filter p hpol w hf] at h
+      simp only [Prod.mk.injEq] at h
+      exact absurd h.1 (by simp)
+    obtain ⟨msg, hmsg, heq⟩ := gen_loadFilter_prog U filter p hpol w hf
     rw [heq] at h
     simp only [Prod.mk.injEq] at h
     obtain ⟨h1, h2⟩ := h
@@ -71,7 +75,12 @@ theorem failed_load_attaches_nothing (U : Unsupported) (filter : Filter) (w : Wo
   | assembleFails => rw [(gen_loadFilter_noprog U filter (by simp [hpol]) w).2]
   | encodeFails => rw [(gen_loadFilter_noprog U filter (by simp [hpol]) w).2]
   | prog p =>
-    obtain ⟨msg, hmsg, heq⟩ := gen_loadFilter_prog U filter p hpol w
+    by_cases hf : nnpFault filter w
+    · rw [gen_loadFilter_fault U filter p hpol w hf]
+      simp only
+      rw [atReturn_thr]
+      exact preInstall_filters filter w t
+    obtain ⟨msg, hmsg, heq⟩ := gen_loadFilter_prog U filter p hpol w hf
     rw [heq] at h ⊢
     simp only at h ⊢
     generalize hr : Gen.seccomp U 1 filter.flag (mkFprog (.prog p)) (preInstall filter w) = r at h ⊢
@@ -98,7 +107,9 @@ theorem kernel_refusal_is_error (U : Unsupported) (filter : Filter) (p : Prog) (
         (w.thr t).filters.isSuffixOf (w.thr (callThread filter w)).filters = false) ∨
       w.seccompAvailable = false) :
     (Gen.loadFilter U filter w).1 ≠ GoErr.nil := by
-  obtain ⟨msg, hmsg, heq⟩ := gen_loadFilter_prog U filter p hp w
+  by_cases hf : nnpFault filter w
+  · rw [gen_loadFilter_fault U filter p hp w hf]; simp
+  obtain ⟨msg, hmsg, heq⟩ := gen_loadFilter_prog U filter p hp w hf
   rw [heq]
   simp only
   have hd : (Gen.seccomp U 1 filter.flag (mkFprog (.prog p)) (preInstall filter w)).1 ≠ GoErr.nil := by
@@ -115,6 +126,22 @@ theorem kernel_refusal_is_error (U : Unsupported) (filter : Filter) (p : Prog) (
     · exact .inr (.inr (.inr (.inr (.inr (by rw [preInstall_avail]; exact hna)))))
   rw [if_pos hd]
   exact hmsg _
+
+/-- **A refused `prctl` is reported too, and `seccomp` is then never called**: if no_new_privs is requested
+    on a kernel that refuses the option, the result is a non-nil error carrying the kernel's errno, no
+    thread's state changes (no filter, no bit), and the only kernel call made is the `prctl`. -/
+theorem nnp_refusal_is_error (U : Unsupported) (filter : Filter) (p : Prog) (hp : filter.policy = .prog p)
+    (w : World) (hn : filter.noNewPrivs = true) (ha : w.nnpAvailable = false) :
+    (Gen.loadFilter U filter w).1.cls = .errno EINVAL ∧
+    (Gen.loadFilter U filter w).2.thr = w.thr ∧
+    (Gen.loadFilter U filter w).2.log = .prctl w.cur 38 1 0 0 0 :: w.log ∧
+    (Gen.loadFilter U filter w).2.lockCount = w.lockCount := by
+  rw [gen_loadFilter_fault U filter p hp w ⟨hn, ha⟩]
+  refine ⟨by simp [GoErr.cls, EINVAL], ?_, ?_, ?_⟩
+  · simp only; rw [atReturn_thr, preInstall_thr_fault _ _ ⟨hn, ha⟩]
+  · simp only; rw [atReturn_log, preInstall_fault _ _ hn ha]
+  · simp only [atReturn, hn, if_true, preInstall_fault _ _ hn ha]
+    simp [unlockOSThread, lockOSThread]
 
 /-- **A load that fails before reaching the kernel changes nothing**: no filter, no no_new_privs bit,
     no kernel call at all (the world, including its call log, is the same). -/
